@@ -28,8 +28,8 @@ RULE = ('a case = generated prefix history + designated transaction + interrupti
 ASSUMPTIONS = ['faults inside tpc_finish (after the status flip began) are judged by the C01 outcome: the storage '
                'reopens to the state before or after the whole transaction',
                'commit-lock freedom is probed by a non-blocking acquire of the storage\'s _commit_lock']
-BUDGET = {'quick': {'examples': 4000, 'workers': 8},
-          'thorough': {'examples': 40000, 'workers': 16}}
+BUDGET = {'quick': {'examples': 8000, 'workers': 8},
+          'thorough': {'examples': 60000, 'workers': 16}}
 
 MODES = ['abort', 'fault', 'fault', 'fault', 'quota', 'wrongtxn', 'meta']
 
